@@ -257,10 +257,14 @@ def pairsDisjoint (ops : List HOp) (rows : List RowZ) : Bool :=
     | some r1, some r2 => i == j || r1.mult != r2.mult || disjointFrom ops r1 r2
     | _, _ => false
 
-/-- Row-level clauses: images bounded (so keys are faithful), generic orbit size = multiplicity,
-site-symmetry order × multiplicity = number of operations. -/
+/-- Entries of the linear part of a tabulated position lie in `[-2, 2]`. -/
+def linSmall (m : M3) : Bool := m.toList.all fun x => decide (-2 ≤ x) && decide (x ≤ 2)
+
+/-- Row-level clauses: coefficients in `[-2,2]` (so that, the rotations having entries in `{-1,0,1}`,
+all images are bounded and the keys faithful), generic orbit size = multiplicity, site-symmetry
+order × multiplicity = number of operations. -/
 def rowOk (ops : List HOp) (r : RowZ) : Bool :=
-  ((images ops r.lin r.org).all AffZ.bounded) &&
+  linSmall r.lin &&
   genericOrbitSize ops r.lin r.org == r.mult &&
   (match siteSymmetryOrder? r.sym with
    | some k => k * r.mult == ops.length
@@ -272,19 +276,30 @@ def sequence? {α : Type} : List (Option α) → Option (List α)
   | none :: _ => none
   | some a :: rest => (sequence? rest).map (a :: ·)
 
-/-- The parsed rows of a Hall number (`none` if some coordinate string does not parse or an origin
-is not a multiple of 1/24). -/
-def parsedRows? (h : Nat) : Option (List RowZ) := sequence? ((rowsOfHall h).map RowZ.ofEntry?)
+/-- The parsed rows of Hall number `h` within `table` (`none` if some coordinate string does not
+parse or an origin is not a multiple of 1/24). -/
+def parsedRowsOn? (table : List WyckoffEntry) (h : Nat) : Option (List RowZ) :=
+  sequence? ((table.filter fun e => e.hallNumber == h).map RowZ.ofEntry?)
 
-/-- Everything C16(i) says about the rows of Hall number `h`. -/
-def checkHall (h : Nat) : Bool :=
-  match convOps h, parsedRows? h with
+def parsedRows? (h : Nat) : Option (List RowZ) := parsedRowsOn? wyckoffTableList h
+
+/-- Everything C16(i) says about the rows of Hall number `h` found in `table`. -/
+def checkHallOn (table : List WyckoffEntry) (h : Nat) : Bool :=
+  match convOps h, parsedRowsOn? table h with
   | some ops, some rows =>
-    (rows.all (rowOk ops)) && lettersOk rows ops.length && pairsDisjoint ops rows
+    (ops.all fun g => g.rot.small) && (rows.all (rowOk ops)) && lettersOk rows ops.length && pairsDisjoint ops rows
   | _, _ => false
 
-/-- `checkHall` for `lo ≤ h < hi`. -/
-def checkHallRange (lo hi : Nat) : Bool := (List.range (hi - lo)).all fun k => checkHall (lo + k)
+/-- Everything C16(i) says about the rows of Hall number `h`. -/
+def checkHall (h : Nat) : Bool := checkHallOn wyckoffTableList h
+
+def inRange (lo hi : Nat) (e : WyckoffEntry) : Bool := decide (lo ≤ e.hallNumber) && decide (e.hallNumber < hi)
+
+/-- `checkHall` for `lo ≤ h < hi`, with one pass over the table (`checkHallRange_iff` in
+`Proofs/OracleC07Table.lean`). -/
+def checkHallRange (lo hi : Nat) : Bool :=
+  let sub := wyckoffTableList.filter (inRange lo hi)
+  (List.range (hi - lo)).all fun k => checkHallOn sub (lo + k)
 
 /-- Row-by-row diagnosis for the driver (names the failing rows and clauses). -/
 def diagnoseHall (h : Nat) : List String :=
@@ -292,14 +307,15 @@ def diagnoseHall (h : Nat) : List String :=
   | none => [s!"Hall {h}: no conventional operations"]
   | some ops =>
     let rows := rowsOfHall h
-    let f1 := rows.filterMap fun e =>
+    let f0 := if ops.all fun g => g.rot.small then [] else [s!"Hall {h}: a rotation has an entry outside -1,0,1"]
+    let f1 := f0 ++ rows.filterMap fun e =>
       match Space.new? e.coordinates with
       | none => some s!"Hall {h} letter {e.letter}: coordinate string '{e.coordinates}' does not parse"
       | some sp => match sp.org24? with
         | none => some s!"Hall {h} letter {e.letter}: origin of '{e.coordinates}' is not a multiple of 1/24"
         | some o =>
           let r : RowZ := ⟨e.multiplicity, e.letter, e.siteSymmetry, sp.linear, o⟩
-          if !((images ops r.lin r.org).all AffZ.bounded) then some s!"Hall {h} letter {e.letter}: coefficient out of range"
+          if !(linSmall r.lin) then some s!"Hall {h} letter {e.letter}: coefficient out of range"
           else if genericOrbitSize ops r.lin r.org != r.mult then
             some s!"Hall {h} letter {e.letter} '{e.coordinates}': generic orbit size {genericOrbitSize ops r.lin r.org}, tabulated multiplicity {r.mult}"
           else match siteSymmetryOrder? r.sym with
